@@ -4,10 +4,10 @@
 WT="$1"; S="$2"; PY="${3:-/venv/bin/python}"
 cd "$WT" || exit 2
 git checkout -q -- stackscope
-git apply --check "SEED/$S/patch.diff" || { echo "PATCH DOES NOT APPLY"; exit 2; }
-git apply "SEED/$S/patch.diff"
+git apply --check "${SEEDDIR:-SEED}/$S/patch.diff" || { echo "PATCH DOES NOT APPLY"; exit 2; }
+git apply "${SEEDDIR:-SEED}/$S/patch.diff"
 echo "--- suite with seed:"; /venv/bin/python -m pytest -q -p no:cacheprovider 2>&1 | tail -1
-echo "--- demo with seed:"; PYTHONPATH="$WT" "$PY" "SEED/$S/demo.py" >/tmp/demo_out.txt 2>&1; echo "exit $?"; tail -3 /tmp/demo_out.txt
+echo "--- demo with seed:"; PYTHONPATH="$WT" "$PY" "${SEEDDIR:-SEED}/$S/demo.py" >/tmp/demo_out.txt 2>&1; echo "exit $?"; tail -3 /tmp/demo_out.txt
 git checkout -q -- stackscope
-echo "--- demo without seed:"; PYTHONPATH="$WT" "$PY" "SEED/$S/demo.py" >/tmp/demo_out.txt 2>&1; echo "exit $?"; tail -2 /tmp/demo_out.txt
+echo "--- demo without seed:"; PYTHONPATH="$WT" "$PY" "${SEEDDIR:-SEED}/$S/demo.py" >/tmp/demo_out.txt 2>&1; echo "exit $?"; tail -2 /tmp/demo_out.txt
 git status --short | grep -v SEED
